@@ -705,21 +705,30 @@ func (c *Client) processPubrec(id packet.ID) error {
 
 // handle an incoming Pubrel packet
 func (c *Client) processPubrel(id packet.ID) error {
+	// ignore an invalid id (cannot be acknowledged)
+	if !id.Valid() {
+		return nil
+	}
+
 	// get packet from store
 	pkt, err := c.Session.LookupPacket(session.Incoming, id)
 	if err != nil {
 		return c.die(err, true)
 	}
 
-	// get packet from store
+	// get packet from store (missing if the flow has already been completed)
 	publish, ok := pkt.(*packet.Publish)
-	if !ok {
-		return nil // ignore a wrongly sent Pubrel packet
-	}
+	if ok {
+		// call callback
+		if c.Callback != nil && !c.earlyCallback {
+			err = c.Callback(&publish.Message, nil)
+			if err != nil {
+				return c.die(err, true)
+			}
+		}
 
-	// call callback
-	if c.Callback != nil && !c.earlyCallback {
-		err = c.Callback(&publish.Message, nil)
+		// remove packet from store
+		err = c.Session.DeletePacket(session.Incoming, id)
 		if err != nil {
 			return c.die(err, true)
 		}
@@ -727,18 +736,12 @@ func (c *Client) processPubrel(id packet.ID) error {
 
 	// prepare pubcomp packet
 	pubcomp := packet.NewPubcomp()
-	pubcomp.ID = publish.ID
+	pubcomp.ID = id
 
-	// acknowledge Publish packet
+	// acknowledge Pubrel packet
 	err = c.send(pubcomp, true)
 	if err != nil {
 		return c.die(err, false)
-	}
-
-	// remove packet from store
-	err = c.Session.DeletePacket(session.Incoming, id)
-	if err != nil {
-		return c.die(err, true)
 	}
 
 	return nil
